@@ -549,6 +549,818 @@ def fresh_pack(run, rng, c, PacketError):
         run.count("repack_reparsed_differently_per_model")
 
 
+# =================================================================================================
+# ---- wrapped / nested declarations --------------------------------------------------------------
+# The same Data field, carried by the wrappers a declaration can put around it.  `c` is a one-byte
+# control field (condition / count / key / position), s1 stays the size source of the sized modes.
+#
+#   when       d = Data(..).when(c | c == 1 | callable)                 false => None, nothing consumed
+#   rep_count  d = Data(..).repeated(count=c | 2 | callable)            every element scans from its own cursor
+#   rep_until  d = Data(..).repeated(until=callable)                    one or more elements
+#   ref_sub    sub = Ref(S) [.repeated(2)], S = {s1, d = Data(..)[.when(s1) | .repeated(2)]} with its OWN
+#              search_buffer_length, followed by e = Data(..) of the outer class (outer window)
+#   selector   d = Ref(c.chooses({0: Data(..), 1: Data(<other>), 2: S()}))   literal fields / packet option
+#   moved      d = Data(..).at(c | 3 | c,'begins') / .shift(c | 1)      the scan starts at the moved cursor
+#
+# Which window applies: `__bisturi__` options are defaults "per packet class" (docs/reference/03, 04), so
+# a field of S reached through Ref uses S's search_buffer_length and the fields of the class itself - plain,
+# .when(), .repeated(), .at()/.shift() - use the class's own.  For a literal Data handed out by a run-time
+# selector no document says which class (if any) configures it: such a case is judged only when the outer
+# window and no window give the same answer, otherwise it is counted (selector_literal_window_unspecified).
+WRAP_MODE_IDS = ["const0", "const2", "field", "expr_sub2", "call_and3",
+                 "lit_nul", "lit_ab", "lit_aab", "lit_crlf", "lit_colons",
+                 "rx_eol", "rx_nuls", "rx_set", "rx_alt", "rx_star", "rx_nl_or_end", "eos"]
+SHAPES = {"when": 3, "rep_count": 3, "rep_until": 2, "ref_sub": 4, "selector": 2, "moved": 5}   # shape -> variants
+WRAP_WINDOWS = {"when": [None, 0, 2, 4], "rep_count": [None, 2, 4], "rep_until": [None, 2, 4],
+                "selector": [None, 2, 4], "moved": [None, 2, 4]}
+REF_WINDOWS = [(None, 3), (3, None), (2, 5), (5, 2), (0, 3)]           # (outer, sub-packet)
+WHEADER = "import re\nfrom bisturi.packet import Packet\nfrom bisturi.field import Int, Data, Ref, EOS\n\n"
+LOOP_CAP = 300
+WINDOW_REASONS = ("delimiter_outside_window", "delimiter_straddles_window")
+CONST1 = Mode("const1w", "sized", "1", size=lambda s1, L, o: 1)
+
+
+class _Err(Exception):
+    pass
+
+
+class _Unj(Exception):
+    pass
+
+
+class _Skip(Exception):
+    pass
+
+
+def take(mode, incl, W, raw, o, s1):
+    """The Data field read with the cursor at o.
+    ('ok', value, cursor after, literal delimiter pack() must append | None = not determined, flags)
+    | ('err', reason) | ('unjudged', reason)"""
+    L = len(raw)
+    if o > L or o < 0:
+        return ("unjudged", "cursor_beyond_input")
+    if mode.kind == "sized":
+        n = mode.size(s1, L, o)
+        if not isinstance(n, int):
+            return ("unjudged", "non_integer_size")
+        if n < 0:
+            return ("err", "negative_size")
+        if o + n > L:
+            return ("err", "short_read")
+        return ("ok", raw[o:o + n], o + n, b"", [])
+    if mode.kind == "eos":
+        return ("ok", raw[o:], L, b"", [])
+    rest = raw[o:]
+    win = rest[:W] if W else rest
+    if mode.kind == "lit":
+        def find(hay):
+            i = hay.find(mode.marker)
+            return None if i < 0 else (i, i + len(mode.marker))
+    else:
+        def find(hay):
+            m = mode.rx.search(hay)
+            return None if m is None else (m.start(), m.end())
+    hit = find(win)
+    unbounded = hit if win is rest else find(rest)
+    if hit is None:
+        if unbounded is None:
+            return ("err", "missing_delimiter")
+        if unbounded[0] < len(win):
+            return ("err", "delimiter_straddles_window")
+        return ("err", "delimiter_outside_window")
+    ds, de = hit
+    flags = []
+    if W:
+        flags.append("in_window_accept")
+        if de == len(win) == W:
+            flags.append("accept_ends_at_window_edge")
+    if unbounded != hit:
+        flags.append("window_edge_changes_match")
+    if ds == 0:
+        flags.append("delimiter_at_cursor")
+    if incl:
+        delim = b""
+    elif mode.kind == "lit":
+        delim = mode.marker
+    else:
+        delim = None
+    return ("ok", rest[:de if incl else ds], o + de, delim, flags)
+
+
+class _Reader:
+    """Sequential reference parse of one input; pieces = what pack() must emit, in order."""
+
+    def __init__(self, raw):
+        self.raw, self.cur = raw, 0
+        self.pieces, self.flags = [], []
+        self.packable = True          # False once a regex delimiter was excluded (pack not determined)
+        self.taken = 0                # Data elements actually read
+        self.err_at = None
+
+    def int1(self, why="hdr_short"):
+        if self.cur + 1 > len(self.raw):
+            raise _Unj(why)
+        v = self.raw[self.cur]
+        self.pieces.append(self.raw[self.cur:self.cur + 1])
+        self.cur += 1
+        return v
+
+    def int2(self):
+        if self.cur + 2 > len(self.raw) or self.cur < 0:
+            raise _Unj("s2_short")
+        v = int.from_bytes(self.raw[self.cur:self.cur + 2], "big")
+        self.pieces.append(self.raw[self.cur:self.cur + 2])
+        self.cur += 2
+        return v
+
+    def data(self, mode, incl, W, s1, where):
+        r = take(mode, incl, W, self.raw, self.cur, s1)
+        if r[0] == "err":
+            self.err_at = where
+            raise _Err(r[1])
+        if r[0] == "unjudged":
+            raise _Unj(r[1])
+        _, value, cur, delim, flags = r
+        progressed = cur > self.cur
+        self.cur = cur
+        self.taken += 1
+        self.flags.extend(flags)
+        if delim is None:
+            self.packable = False
+            self.pieces.append(value)
+        else:
+            self.pieces.append(value + delim)
+            if delim:
+                self.flags.append("literal_delimiter_to_append")
+        return value, progressed
+
+
+class WCls:
+    __slots__ = ("name", "shape", "variant", "mode", "incl", "W", "Wsub", "opt", "subopt", "tail", "src", "cls",
+                 "subcls", "spec")
+
+    def __init__(self, name, shape, variant, mode, incl, W, Wsub, opt):
+        self.name, self.shape, self.variant, self.mode, self.incl = name, shape, variant, mode, incl
+        self.W, self.Wsub, self.opt = W, Wsub, opt
+        self.tail = mode.kind == "eos"           # EOS takes everything: nothing can follow it
+        # the sub-packet's code-generation options differ from the outer's for the odd variants
+        self.subopt = opt if variant % 2 == 0 else {"g": "d", "d": "nv", "nv": "g"}[opt]
+        self.cls = self.subcls = None
+        self.spec = {"shape": shape, "variant": variant, "mode": mode.id, "incl": incl, "W": W, "Wsub": Wsub,
+                     "opt": opt}
+        self.src = self._source()
+
+    def _arg(self, incl=None):
+        arg = self.mode.arg
+        if self.mode.kind != "sized":
+            arg += ", include_delimiter=%r" % (self.incl if incl is None else incl)
+        return "Data(%s)" % arg
+
+    def _other(self):
+        """the second literal option of the selector"""
+        if self.mode.kind in ("lit", "rx"):
+            return self._arg(not self.incl)
+        return "Data(1)"
+
+    def _opts(self, opt, W):
+        o = dict(OPTSETS[opt])
+        if W is not None:
+            o["search_buffer_length"] = W
+        return "    __bisturi__ = %r" % (o,)
+
+    def _source(self):
+        n, v, D = self.name, self.variant, self._arg()
+        sub = []
+        if self.shape in ("ref_sub", "selector"):
+            inner = {0: D, 1: D, 2: D + ".when(s1)", 3: D + ".repeated(2)"}[v] if self.shape == "ref_sub" else D
+            sub = ["class %s_S(Packet):" % n, self._opts(self.subopt, self.Wsub), "    s1 = Int(1)",
+                   "    d = %s" % inner, ""]
+        head = ["class %s(Packet):" % n, self._opts(self.opt, self.W), "    s1 = Int(1)"]
+        if self.shape == "when":
+            cond = ["c", "c == 1", "lambda pkt, **k: pkt.c & 1"][v]
+            body = ["    c = Int(1)", "    d = %s.when(%s)" % (D, cond)]
+        elif self.shape == "rep_count":
+            cnt = ["c", "2", "lambda pkt, **k: pkt.c & 3"][v]
+            body = ["    c = Int(1)", "    d = %s.repeated(count=%s)" % (D, cnt)]
+        elif self.shape == "rep_until":
+            unt = ["lambda pkt, **k: len(pkt.d) >= pkt.c", "lambda raw, offset, **k: offset >= len(raw) - 2"][v]
+            body = ["    c = Int(1)", "    d = %s.repeated(until=%s)" % (D, unt)]
+        elif self.shape == "ref_sub":
+            body = ["    sub = Ref(%s_S)%s" % (n, ".repeated(2)" if v == 1 else ""), "    e = %s" % D]
+        elif self.shape == "selector":
+            if v == 0:
+                sel = "c.chooses({0: %s, 1: %s, 2: %s_S()})" % (D, self._other(), n)
+            else:
+                sub += ["%s_O = (%s, %s, %s_S())" % (n, D, self._other(), n), ""]
+                sel = "lambda pkt, **k: %s_O[pkt.c]" % n
+            body = ["    c = Int(1)", "    d = Ref(%s, default=b'')" % sel]
+        elif self.shape == "moved":
+            mv = [".at(c)", ".shift(c)", ".at(3)", ".shift(1)", ".at(c, 'begins')"][v]
+            body = ["    c = Int(1)", "    d = %s%s" % (D, mv)]
+        else:
+            raise ValueError(self.shape)
+        tailf = [] if self.tail else ["    s2 = Int(2)"]
+        return "\n".join(sub + head + body + tailf) + "\n"
+
+
+def wrapped_specs(shard=0):
+    """[(group_key, [WCls x 3 option sets])]; the variant of a shape rotates over (mode, include, window)."""
+    groups, n, rot = [], 0, shard
+    for mid in WRAP_MODE_IDS:
+        mode = MODE_BY_ID[mid]
+        incls = [False] if mode.kind == "sized" else [False, True]
+        for shape, nvar in SHAPES.items():
+            if shape == "ref_sub":
+                windows = REF_WINDOWS[:2] if mode.kind == "sized" else REF_WINDOWS
+            elif mode.kind == "sized":
+                windows = [(None, 3), (2, None)]
+            else:
+                windows = [(W, {None: 3, 0: 2, 2: 5, 4: 2}[W]) for W in WRAP_WINDOWS[shape]]
+            for incl in incls:
+                for W, Wsub in windows:
+                    variant = rot % nvar
+                    rot += 1
+                    members = []
+                    for opt in OPTSETS:
+                        members.append(WCls("X%d" % n, shape, variant, mode, incl, W, Wsub, opt))
+                        n += 1
+                    groups.append(((shape, variant, mid, incl, W, Wsub), members))
+    return groups
+
+
+def define_wrapped(groups, scratch):
+    from .. import render
+    modules = []
+    for _, members in groups:
+        module, _path = render.load_source(WHEADER + "\n".join(c.src for c in members), scratch)
+        modules.append(module)
+        for c in members:
+            c.cls = getattr(module, c.name)
+            c.subcls = getattr(module, c.name + "_S", None)
+    return modules
+
+
+# ---- the reference model of a wrapped declaration -----------------------------------------------
+def wmodel(wc, raw, litW="class", subW="own"):
+    """('ok', want, end, expected pack | None, flags, info) | ('err', reason, where) | ('unjudged', reason)
+    | ('skip', reason).   litW: window of a selector literal ('class' = the outer class's, None = none);
+    subW: 'own' = the sub-packet's own window, 'outer' = (counter-factual) the outer class's."""
+    mode, incl, v, shape = wc.mode, wc.incl, wc.variant, wc.shape
+    W = wc.W
+    Wsub = wc.Wsub if subW == "own" else wc.W
+    r = _Reader(raw)
+    want = {}
+    info = {}
+    try:
+        s1 = want["s1"] = r.int1()
+        if shape == "when":
+            c = want["c"] = r.int1()
+            proceed = [c != 0, c == 1, bool(c & 1)][v]
+            before = r.cur
+            want["d"] = r.data(mode, incl, W, s1, "d")[0] if proceed else None
+            if not proceed:
+                info["when_false"] = True
+                assert r.cur == before
+        elif shape == "rep_count":
+            c = want["c"] = r.int1()
+            cnt = [c, 2, c & 3][v]
+            want["d"] = [r.data(mode, incl, W, s1, "d[%d]" % i)[0] for i in range(cnt)]
+            info["elements"] = cnt
+        elif shape == "rep_until":
+            c = want["c"] = r.int1()
+            out = []
+            while True:
+                value, progressed = r.data(mode, incl, W, s1, "d[%d]" % len(out))
+                out.append(value)
+                if (len(out) >= c) if v == 0 else (r.cur >= len(raw) - 2):
+                    break
+                if (v == 1 and not progressed) or len(out) > LOOP_CAP:
+                    raise _Skip("sequence_would_not_terminate")
+            want["d"] = out
+            info["elements"] = len(out)
+        elif shape == "ref_sub":
+            def one_sub(tag):
+                ss1 = r.int1("sub_s1_short")
+                if v == 2:
+                    d = r.data(mode, incl, Wsub, ss1, tag + ".d")[0] if ss1 != 0 else None
+                elif v == 3:
+                    d = [r.data(mode, incl, Wsub, ss1, "%s.d[%d]" % (tag, i))[0] for i in range(2)]
+                else:
+                    d = r.data(mode, incl, Wsub, ss1, tag + ".d")[0]
+                return {"s1": ss1, "d": d}
+            want["sub"] = [one_sub("sub[0]"), one_sub("sub[1]")] if v == 1 else one_sub("sub")
+            want["e"] = r.data(mode, incl, W, s1, "e")[0]
+        elif shape == "selector":
+            c = want["c"] = r.int1()
+            info["key"] = c
+            if c == 0:
+                want["d"] = r.data(mode, incl, W if litW == "class" else litW, s1, "d")[0]
+            elif c == 1:
+                if mode.kind in ("lit", "rx"):
+                    want["d"] = r.data(mode, not incl, W if litW == "class" else litW, s1, "d")[0]
+                else:
+                    want["d"] = r.data(CONST1, False, None, s1, "d")[0]
+            elif c == 2:
+                ss1 = r.int1("sub_s1_short")
+                want["d"] = {"s1": ss1, "d": r.data(mode, incl, Wsub, ss1, "d.d")[0]}
+            else:
+                raise _Unj("selector_key_without_option")
+        elif shape == "moved":
+            c = want["c"] = r.int1()
+            pos = [c, r.cur + c, 3, r.cur + 1, c][v]
+            info["moved_to"], info["moved_from"] = pos, r.cur
+            r.cur = pos
+            npieces = len(r.pieces)
+            want["d"] = r.data(mode, incl, W, s1, "d")[0]
+        if not wc.tail:
+            want["s2"] = r.int2()
+    except _Err as e:
+        return ("err", str(e), r.err_at)
+    except _Unj as e:
+        return ("unjudged", str(e))
+    except _Skip as e:
+        return ("skip", str(e))
+    info["taken"] = r.taken
+    if not r.packable:
+        pack = None
+    elif shape == "moved":
+        # the bytes put into the gap are not this property's business: header, position, body
+        pack = ("moved", b"".join(r.pieces[:npieces]), info["moved_to"], b"".join(r.pieces[npieces:]))
+    else:
+        pack = b"".join(r.pieces)
+    return ("ok", want, r.cur, pack, r.flags, info)
+
+
+# ---- inputs for wrapped declarations -------------------------------------------------------------
+def wseg(rng, mode, W):
+    """fill + delimiter for one delimited element, lengths around the window edge"""
+    d = rng.choice(mode.delims) if rng.random() < 0.9 else None
+    dl = len(d) if d is not None else 0
+    if W:
+        L = rng.choice([0, 1, W - dl - 1, W - dl, W - dl, W - dl + 1, W - dl + 1, W - 1, W, W + 1, W + 2, rng.randint(0, W + 3)])
+    else:
+        L = rng.choice([0, 1, 2, 3, 5, rng.randint(0, 9)])
+    L = max(L, 0)
+    k = rng.random()
+    if k < 0.45:
+        fill = mode.neutral * L
+    elif k < 0.65 and d:
+        unit = d[:-1] if len(d) > 1 else mode.neutral
+        fill = (unit * (L + 1))[:L] if rng.random() < 0.5 else (d[:1] * L)
+    else:
+        fill = _rb(rng, L, mode.alphabet)
+    if d is not None and len(d) > 1 and rng.random() < 0.06:
+        return fill + d[:-1]
+    return fill + (d if d is not None else b"")
+
+
+def gen_wrapped(rng, wc):
+    mode, shape, v = wc.mode, wc.shape, wc.variant
+
+    def s1byte():
+        if mode.kind == "sized":
+            return rng.choice([0, 1, 2, 2, 3, 4, 5, 6, rng.randint(0, 9), rng.choice([127, 255])])
+        r = rng.random()
+        if r < 0.4 and mode.delims:
+            d = rng.choice(mode.delims)
+            if d:
+                return d[0]
+        return rng.choice(mode.alphabet) if r < 0.6 else rng.randrange(256)
+
+    def elem(W, s1):
+        if mode.kind == "sized":
+            n = mode.size(s1, 0, 0)
+            return _rb(rng, max(n, 0) if n < 12 else rng.randint(0, 6))
+        if mode.kind == "eos":
+            return _rb(rng, rng.choice([0, 1, 2, 3, 5]), mode.alphabet)
+        return wseg(rng, mode, W)
+
+    def anyW():
+        return rng.choice([wc.W, wc.W, wc.Wsub])
+
+    s1 = s1byte()
+    out = bytes([s1])
+    if shape == "when":
+        c = rng.choice([[0, 1, 1, 2, 255], [0, 1, 1, 1, 2], [0, 1, 1, 2, 3]][v])
+        out += bytes([c]) + elem(wc.W, s1)
+    elif shape == "rep_count":
+        c = rng.choice([0, 1, 2, 2, 3, 3, 5, 6]) if v != 1 else rng.randrange(256)
+        cnt = [c, 2, c & 3][v]
+        k = max(cnt + rng.choice([0, 0, 0, 0, 1, -1]), 0)
+        out += bytes([c]) + b"".join(elem(wc.W, s1) for _ in range(k))
+    elif shape == "rep_until":
+        c = rng.choice([0, 1, 2, 2, 3])
+        k = max(c, 1) if v == 0 else rng.choice([1, 2, 3])
+        k = max(k + rng.choice([0, 0, 0, 0, 1, -1]), 0)
+        out += bytes([c]) + b"".join(elem(wc.W, s1) for _ in range(k))
+    elif shape == "ref_sub":
+        for _ in range(2 if v == 1 else 1):
+            ss1 = s1byte()
+            out += bytes([ss1]) + b"".join(elem(anyW(), ss1) for _ in range(2 if v == 3 else 1))
+        out += elem(anyW(), s1)
+    elif shape == "selector":
+        c = rng.choice([0, 0, 0, 1, 1, 2, 2, 2]) if rng.random() < 0.96 else rng.choice([3, 7, 255])
+        out += bytes([c])
+        if c == 2:
+            ss1 = s1byte()
+            out += bytes([ss1]) + elem(anyW(), ss1)
+        elif c == 1 and mode.kind not in ("lit", "rx"):
+            out += _rb(rng, 1)
+        else:
+            out += elem(wc.W, s1)
+    elif shape == "moved":
+        r = rng.random()
+        if v in (0, 4):
+            c = rng.choice([2, 2, 2, 3, 4, 5]) if r < 0.86 else rng.choice([0, 1]) if r < 0.94 else rng.choice([40, 200])
+            gap = max(c - 2, 0)
+        elif v == 1:
+            c = rng.choice([0, 0, 1, 2, 3]) if r < 0.93 else rng.choice([40, 200])
+            gap = c
+        else:
+            c, gap = rng.randrange(256), 1
+        if gap > 8:
+            gap = rng.choice([0, 3])
+        # the gap carries marker bytes: the scan must not start before the moved cursor
+        out += bytes([c]) + _rb(rng, gap, mode.alphabet or None) + elem(wc.W, s1)
+    closed = False
+    if not wc.tail or rng.random() < 0.3:
+        out += _rb(rng, 2, mode.alphabet) if (mode.alphabet and rng.random() < 0.4) else _rb(rng, 2)
+        closed = True
+    if not (shape == "rep_until" and v == 1 and rng.random() < 0.8):
+        t = rng.random()
+        if t < 0.2:
+            out += _rb(rng, rng.randint(1, 3), mode.alphabet or None)
+        elif t < 0.35 and mode.delims and closed:
+            out += mode.neutral + rng.choice(mode.delims)
+    if rng.random() < 0.07 and len(out) > 2:
+        out = out[:rng.randint(2, len(out))]
+    return out
+
+
+# ---- executing one wrapped case ---------------------------------------------------------------------
+def _obs(x):
+    """what a user reads from a parsed packet, as plain data (sub-packets -> {'s1','d'})"""
+    if isinstance(x, (bytes, int)) or x is None:
+        return x
+    if isinstance(x, list):
+        return [_obs(i) for i in x]
+    if hasattr(x, "get_fields"):
+        return {"s1": _obs(getattr(x, "s1", "<unset>")), "d": _obs(getattr(x, "d", "<unset>"))}
+    return "<%s %r>" % (type(x).__name__, x)
+
+
+def _same(a, b):
+    if type(a) is not type(b):
+        return False
+    if isinstance(a, list):
+        return len(a) == len(b) and all(_same(x, y) for x, y in zip(a, b))
+    if isinstance(a, dict):
+        return a.keys() == b.keys() and all(_same(a[k], b[k]) for k in a)
+    return a == b
+
+
+def _wkey(wc, raw):
+    s = wc.spec
+    return hashlib.blake2b(("w|%s|%s|%s|%s|%s|%s|%s|" % (s["shape"], s["variant"], s["mode"], s["incl"], s["W"],
+                                                          s["Wsub"], s["opt"])).encode() + raw,
+                           digest_size=8).hexdigest()
+
+
+def _wwitness(wc, raw, exp, got, origin, op="unpack"):
+    return {"op": op, "declaration": WHEADER + wc.src, "class": wc.name, "spec": wc.spec, "raw": raw,
+            "origin": origin, "expected": exp, "got": got}
+
+
+def _wfields(wc):
+    names = {"ref_sub": ["s1", "sub", "e"]}.get(wc.shape, ["s1", "c", "d"])
+    return names + ([] if wc.tail else ["s2"])
+
+
+def _pack_matches(want, got):
+    if isinstance(want, tuple):
+        _, head, pos, body = want
+        if pos < len(head):
+            return None                                   # moved backwards over the header: not judged
+        return got[:len(head)] == head and len(got) == pos + len(body) and got[pos:] == body
+    return got == want
+
+
+def check_wrapped(run, wc, raw, origin, PacketError):
+    """Parse raw with the real wrapped class and compare with wmodel. Returns the model result when the
+    parse agreed with an 'ok' model, else None."""
+    exp = wmodel(wc, raw)
+    if exp[0] == "skip":
+        run.count("wrapped_skipped_" + exp[1])
+        return None
+    shape = wc.shape
+    run.case(key=_wkey(wc, raw), nontrivial=len(raw) >= 2)
+    run.count("wrapped_inputs")
+    run.count("wrapped_inputs_" + shape)
+    unspecified = False
+    if shape == "selector" and wc.W and exp[0] != "unjudged":
+        alt = wmodel(wc, raw, litW=None)
+        if alt[:3] != exp[:3]:
+            unspecified = True
+    pkt, exc = None, None
+    try:
+        pkt = wc.cls.unpack(raw)
+    except Exception as e:           # noqa
+        exc = e
+    if unspecified:
+        run.count("selector_literal_window_unspecified_not_judged")
+        run.count("selector_literal_window_unspecified_%s" % ("raised" if exc is not None else "accepted"))
+        return None
+    if exp[0] == "unjudged":
+        run.count("wrapped_unjudged_" + exp[1])
+        return None
+
+    # would the *other* class's window have decided differently? (ref_sub / selector packet option)
+    decisive = None
+    windows_differ = (bool(wc.W) != bool(wc.Wsub)) or bool(wc.W and wc.Wsub and wc.W != wc.Wsub)
+    if wc.subcls is not None and windows_differ:
+        if shape == "ref_sub" or (shape == "selector" and raw[1:2] == b"\x02"):
+            alt = wmodel(wc, raw, subW="outer")
+            if alt[0] != exp[0] or (exp[0] == "ok" and alt[1] != exp[1]) or (exp[0] == "err" and alt[1:] != exp[1:]):
+                decisive = alt[0]
+
+    if exp[0] == "err":
+        _, reason, where = exp
+        if exc is None:
+            run.violation("%s accepted in a %s declaration: unpack() returned a packet where the model demands an "
+                          "error at %s" % (reason, shape, where),
+                          _wwitness(wc, raw, {"error": reason, "at": where},
+                                    {f: _obs(getattr(pkt, f, "<unset>")) for f in _wfields(wc)}, origin))
+            return None
+        if not isinstance(exc, PacketError):
+            run.violation("%s in a %s declaration raised %s instead of PacketError" % (reason, shape, type(exc).__name__),
+                          _wwitness(wc, raw, {"error": reason, "at": where}, {"exception": repr(exc)[:300]}, origin))
+            return None
+        run.count("wrapped_unpack_errors_agreed")
+        if reason in WINDOW_REASONS:
+            run.count("wrapped_window_rejections")
+            inner = where is not None and (where.startswith("sub") or where.startswith("d.d"))
+            tag = shape
+            if shape == "selector":
+                tag = "selector_packet" if inner else "selector_literal"
+            run.count("wrapped_window_rejections_" + tag)
+            if shape == "ref_sub":
+                run.count("wrapped_window_rejections_ref_sub_" + ("inner" if inner else "outer_field_after_sub"))
+            if reason == "delimiter_straddles_window":
+                run.count("wrapped_straddling_window_edge")
+            run.cover("wrapped_window_rejected_in", "%s/%d" % (shape, wc.variant))
+        else:
+            run.count("wrapped_err_%s_raised" % reason)
+            run.cover("wrapped_err_in", "%s/%s" % (shape, reason))
+        if decisive is not None:
+            run.count("wrapped_nested_window_decisive")
+            run.count("wrapped_nested_reject_outer_window_would_%s" % ("accept" if decisive == "ok" else "differ"))
+        return None
+
+    _, want, end, wpack, flags, info = exp
+    if exc is not None:
+        run.violation("unpack() of a %s declaration raised %s on an input the model parses" % (shape, type(exc).__name__),
+                      _wwitness(wc, raw, dict(want, end=end), {"exception": str(exc)[:400]}, origin))
+        return None
+    got = {f: _obs(getattr(pkt, f, "<unset>")) for f in _wfields(wc)}
+    try:
+        p2 = wc.cls(_initialize_fields=False)
+        got_end = p2.unpack_impl(raw, 0, root=p2)
+        got2 = {f: _obs(getattr(p2, f, "<unset>")) for f in _wfields(wc)}
+    except Exception as e:           # noqa
+        got_end, got2 = "raised %s" % type(e).__name__, None
+    bad = None
+    if not _same(got, want):
+        diff = [f for f in _wfields(wc) if not _same(got.get(f), want.get(f))]
+        if diff[0] in ("d", "sub", "e"):
+            if info.get("when_false"):
+                bad = "condition false but the field is not None"
+            else:
+                bad = "value of the wrapped Data field (%s, %s) differs from the model" % (shape, diff[0])
+        elif diff[0] == "s2":
+            bad = "sentinel s2 differs in a %s declaration: the cursor was not left just past the field/delimiter%s" % (
+                shape, " (condition false: nothing may be consumed)" if info.get("when_false") else "")
+        else:
+            bad = "field %s differs" % diff[0]
+    elif got_end != end:
+        bad = "end offset differs in a %s declaration: the cursor was not left just past the field/delimiter" % shape
+    elif not _same(got2, want):
+        bad = "second parse (unpack_impl) produced different values"
+    if bad:
+        run.violation(bad, _wwitness(wc, raw, dict(want, end=end), dict(got, end=got_end), origin))
+        return None
+    run.count("wrapped_unpack_ok_compared")
+    run.count("wrapped_unpack_ok_" + shape)
+    run.count("wrapped_end_offset_compared")
+    if not wc.tail:
+        run.count("wrapped_s2_sentinel_compared")
+    run.cover("wrapped_shapes", "%s/%d" % (shape, wc.variant))
+    run.cover("wrapped_modes", wc.mode.id)
+    run.cover("wrapped_option_sets", "%s+%s" % (wc.opt, wc.subopt) if wc.subcls is not None else wc.opt)
+    if info.get("when_false"):
+        run.count("wrapped_when_false_nothing_consumed")
+    elif shape == "when":
+        run.count("wrapped_when_true_compared")
+    if shape in ("rep_count", "rep_until"):
+        run.count("wrapped_sequence_elements_compared", info.get("elements", 0))
+        if info.get("elements", 0) >= 2:
+            run.count("wrapped_sequences_of_two_or_more")
+        if info.get("elements") == 0:
+            run.count("wrapped_sequences_empty")
+    if shape == "selector":
+        run.count("wrapped_selector_key_%d" % info["key"])
+    if shape == "moved":
+        d = info["moved_to"] - info["moved_from"]
+        run.count("wrapped_moved_forward" if d > 0 else "wrapped_moved_in_place" if d == 0 else "wrapped_moved_backwards")
+    for f in set(flags):
+        run.count({"in_window_accept": "wrapped_in_window_accepts",
+                   "accept_ends_at_window_edge": "wrapped_accept_ends_at_window_edge",
+                   "window_edge_changes_match": "wrapped_straddling_window_edge",
+                   "delimiter_at_cursor": "wrapped_delimiter_at_cursor",
+                   "literal_delimiter_to_append": "wrapped_literal_delimiter_excluded"}[f])
+        if f == "in_window_accept":
+            run.count("wrapped_in_window_accepts_" + shape)
+    if decisive is not None:
+        run.count("wrapped_nested_window_decisive")
+        run.count("wrapped_nested_accept_outer_window_would_%s" % ("reject" if decisive == "err" else "differ"))
+
+    # pack() of the parsed packet: every value followed by its excluded literal delimiter
+    if wpack is None:
+        run.count("wrapped_pack_regex_excluded_delimiter_not_judged")
+        return exp
+    check_wrapped_pack(run, wc, pkt, wpack, want, flags, "pack() of the packet parsed from raw", raw)
+    return exp
+
+
+def check_wrapped_pack(run, wc, pkt, wpack, values, flags, how, raw=None):
+    try:
+        out = pkt.pack()
+    except Exception as e:           # noqa
+        if isinstance(wpack, tuple) and wpack[2] < len(wpack[1]):
+            run.count("wrapped_pack_moved_backwards_not_judged")
+            return None
+        w = _wwitness(wc, raw, wpack if not isinstance(wpack, tuple) else list(wpack), {"exception": str(e)[:400]}, how, "pack")
+        w["values"] = values
+        run.violation("pack() of a %s declaration raised %s" % (wc.shape, type(e).__name__), w)
+        return None
+    ok = _pack_matches(wpack, out)
+    if ok is None:
+        run.count("wrapped_pack_moved_backwards_not_judged")
+        return None
+    if not ok:
+        w = _wwitness(wc, raw, wpack if not isinstance(wpack, tuple) else list(wpack), out, how, "pack")
+        w["values"] = values
+        run.violation("pack() of a %s declaration is not the fields in order, each Data value followed by its excluded "
+                      "literal delimiter" % wc.shape, w)
+        return None
+    run.count("wrapped_pack_compared")
+    run.count("wrapped_pack_compared_" + wc.shape)
+    if "literal_delimiter_to_append" in flags:
+        run.count("wrapped_pack_literal_delimiter_appended")
+    return out
+
+
+def wrapped_fresh(run, rng, wc, PacketError):
+    """A freshly built packet: pack() must emit value + excluded literal delimiter for every wrapped Data value;
+    the bytes are then parsed again (and judged against the model like any other input)."""
+    mode, shape, v = wc.mode, wc.shape, wc.variant
+    if mode.kind == "rx" and not wc.incl:
+        return                                   # delimiter not determined by the value
+
+    def val(s1):
+        if mode.kind == "sized":
+            n = mode.size(s1, 0, 0)
+            return _rb(rng, n) if 0 <= n < 16 else None
+        L = rng.randint(0, 4)
+        value = mode.neutral * L if rng.random() < 0.7 else _rb(rng, L, mode.alphabet)
+        if wc.incl and mode.delims:
+            value += rng.choice(mode.delims)
+        return value
+
+    def s1v():
+        if mode.kind == "sized":
+            return {"const0": rng.randrange(256), "const2": rng.randrange(256), "field": rng.randint(0, 4),
+                    "expr_sub2": rng.randint(2, 6), "call_and3": rng.randrange(256)}[mode.id]
+        return rng.randrange(256)
+
+    delim = mode.marker if (mode.kind == "lit" and not wc.incl) else b""
+    s1 = s1v()
+    s2 = rng.randrange(65536)
+    tailb = b"" if wc.tail else s2.to_bytes(2, "big")
+    kw = {"s1": s1}
+    if not wc.tail:
+        kw["s2"] = s2
+    flags = ["literal_delimiter_to_append"] if delim else []
+    try:
+        if shape == "when":
+            c = rng.choice([0, 1, 2, 3])
+            d = val(s1) if rng.random() < 0.8 else None
+            kw.update(c=c, d=d)
+            want = bytes([s1, c]) + (d + delim if d is not None else b"") + tailb
+            if d is None:
+                flags = []
+        elif shape in ("rep_count", "rep_until"):
+            k = rng.choice([0, 1, 2, 3])
+            ds = [val(s1) for _ in range(k)]
+            if any(x is None for x in ds):
+                return
+            c = k if rng.random() < 0.7 else rng.randrange(256)
+            kw.update(c=c, d=ds)
+            want = bytes([s1, c]) + b"".join(x + delim for x in ds) + tailb
+            if not ds:
+                flags = []
+        elif shape == "ref_sub":
+            def mk():
+                ss1 = s1v()
+                if v == 3:
+                    d = [val(ss1), val(ss1)]
+                    if None in d:
+                        return None
+                    return wc.subcls(s1=ss1, d=d), bytes([ss1]) + b"".join(x + delim for x in d)
+                d = val(ss1)
+                if d is None:
+                    return None
+                return wc.subcls(s1=ss1, d=d), bytes([ss1]) + d + delim
+            subs = [mk() for _ in range(2 if v == 1 else 1)]
+            e = val(s1)
+            if None in subs or e is None:
+                return
+            kw.update(sub=[s[0] for s in subs] if v == 1 else subs[0][0], e=e)
+            want = bytes([s1]) + b"".join(s[1] for s in subs) + e + delim + tailb
+        elif shape == "selector":
+            c = rng.choice([0, 0, 2])
+            if c == 0:
+                d = val(s1)
+                if d is None:
+                    return
+                kw.update(c=c, d=d)
+                want = bytes([s1, c]) + d + delim + tailb
+            else:
+                ss1 = s1v()
+                d = val(ss1)
+                if d is None:
+                    return
+                kw.update(c=c, d=wc.subcls(s1=ss1, d=d))
+                want = bytes([s1, c]) + bytes([ss1]) + d + delim + tailb
+        elif shape == "moved":
+            d = val(s1)
+            if d is None:
+                return
+            c = rng.choice([2, 3, 5]) if v in (0, 4) else rng.choice([0, 1, 3]) if v == 1 else rng.randrange(256)
+            pos = [c, 2 + c, 3, 3, c][v]
+            kw.update(c=c, d=d)
+            want = ("moved", bytes([s1, c]), pos, d + delim + tailb)
+        else:
+            return
+        pkt = wc.cls(**kw)
+    except Exception:                # noqa - construction is not C06's business
+        run.count("wrapped_fresh_construction_failed")
+        return
+    values = {k: _obs(x) for k, x in kw.items()}
+    out = check_wrapped_pack(run, wc, pkt, want, values, flags, "pack() of a freshly built packet")
+    if out is None:
+        return
+    run.count("wrapped_fresh_pack_compared")
+    exp = check_wrapped(run, wc, out, "repack", PacketError)
+    if exp is not None and exp[0] == "ok" and all(_same(exp[1].get(k), values[k]) for k in values):
+        run.count("wrapped_repack_roundtrip_values_preserved")
+    else:
+        run.count("wrapped_repack_not_identical_per_model")   # value contains a delimiter, exceeds the window, when false...
+
+
+def run_wrapped(run, PacketError, n_shared, n_private, n_fresh):
+    from .. import common
+    shard, _ = run.shard
+    rng = rng_for(run.seed, "c06-wrapped", shard)
+    scratch = common.scratch_dir("bvf_c06w_")
+    groups = wrapped_specs(shard)
+    modules = []
+    try:
+        modules = define_wrapped(groups, scratch)
+        run.count("wrapped_classes_defined", sum(len(m) for _, m in groups))
+        run.count("wrapped_subpacket_classes_defined", sum(1 for _, m in groups for c in m if c.subcls is not None))
+        sampled = 0
+        for gkey, members in groups:
+            shared = [gen_wrapped(rng, members[0]) for _ in range(n_shared)]
+            for wc in members:
+                for raw in shared:
+                    check_wrapped(run, wc, raw, "adversarial", PacketError)
+                for _ in range(n_private):
+                    check_wrapped(run, wc, gen_wrapped(rng, wc), "random", PacketError)
+                for _ in range(n_fresh):
+                    wrapped_fresh(run, rng, wc, PacketError)
+                if run.counters["violations"] > 40:
+                    return
+            if sampled < 6 and members[0].W and members[0].mode.kind in ("lit", "rx") and shared and \
+                    gkey[0] == list(SHAPES)[sampled % len(SHAPES)]:
+                exp = wmodel(members[0], shared[0])
+                run.sample({"declaration": members[0].src, "raw": shared[0],
+                            "model": [exp[0], exp[1]] + ([exp[2]] if len(exp) > 2 else [])})
+                sampled += 1
+    finally:
+        forget(modules)
+        common.drop_scratch(scratch)
+
+
 # ---- driver -------------------------------------------------------------------------------------
 def run(run):
     from .. import common
